@@ -88,11 +88,17 @@ func main() {
 	if *dump != "" {
 		ctx := newCtx("dump", *tier, *repo, *verif, seed)
 		ctx.NoEvidence = true
-		if err := ctx.load(hostConfig()); err != nil {
-			fmt.Println("CHECK-ERROR", err)
-			os.Exit(2)
+		cfgs := []buildConfig{hostConfig()}
+		if *dump == "funcs" {
+			cfgs = append(cfgs, thoroughConfigs()...)
 		}
-		runDump(ctx, *dump)
+		for _, bc := range cfgs {
+			if err := ctx.load(bc); err != nil {
+				fmt.Println("CHECK-ERROR", err)
+				os.Exit(2)
+			}
+			runDump(ctx, *dump)
+		}
 		return
 	}
 	rules, ok := propRules[*prop]
